@@ -476,6 +476,39 @@ func ruleL16(p *Prog, r *Report) {
 							}
 						}
 					}
+					// a private constructor whose every call result becomes the root of a handle builds roots
+					if _, isPrm := canon(v).(*ssa.Parameter); isPrm && len(rootVals) == 2 {
+						cs := p.CallersOf(f)
+						all := len(cs) > 0
+						for _, c := range cs {
+							cv, ok := c.Instr.(ssa.Value)
+							if !ok {
+								all = false
+								continue
+							}
+							becomesRoot := false
+							var us []ssa.Instruction
+							us = append(us, effectiveUses(cv)...)
+							for _, u := range effectiveUses(cv) {
+								if mi, ok := u.(*ssa.MakeInterface); ok {
+									us = append(us, effectiveUses(mi)...)
+								}
+							}
+							for _, u := range us {
+								if st, ok := u.(*ssa.Store); ok {
+									if fr, ok := asFieldAddr(st.Addr); ok && fr.Field == "root" && fr.Owner != nil && isHandleType(fr.Owner.Obj().Name()) {
+										becomesRoot = true
+									}
+								}
+							}
+							if !becomesRoot {
+								all = false
+							}
+						}
+						if all {
+							rootVals = []bool{true}
+						}
+					}
 				}
 				for _, iv := range inlVals {
 					for _, rv := range rootVals {
